@@ -9,7 +9,7 @@ Open Scope Z_scope.
 Theorem size_bound : forall m origin max_size request_payload prefer_truncation pad w,
   to_wire m origin max_size request_payload prefer_truncation pad = Ok w ->
   zlen w <= eff_limit max_size request_payload /\ 512 <= eff_limit max_size request_payload <= 65535.
-Proof. intros. split; [eapply size_bound_lemma; eassumption|apply eff_limit_range]. Qed.
+Proof. exact size_bound_stmt. Qed.
 Print Assumptions size_bound.
 
 (* a record set that does not fit is removed whole (output, table, counts exactly as before, no
